@@ -82,6 +82,8 @@ def base_layouts(keys):
 
 def secondary(tier, n, seed=0):
     full = [dict(valname=v, rowperm=r, colperm=c, medium=m, sparse=s, rowindex=ri) for v in ("value", "amount") for r in ROWPERMS for c in COLPERMS for m in ("memory", "csv") for s in (False, True) for ri in ("default", "repeat")]
+    # label columns of pandas' categorical dtype (in-memory frames)
+    full = full + [dict(d, cat=True) for d in full if d["medium"] == "memory" and d["rowindex"] == "default" and not d["sparse"]]
     if tier == "thorough":
         return full
     # quick: three members of the full product per base layout, rotating so that every value of every axis
@@ -173,6 +175,13 @@ def run_todf_case(keys, mode):
     sparse = mode[0] == "sparse"
     a = F.array_of(keys, sparse, mode[3] if len(mode) > 3 else "C")
     want = {tuple(r[0][k] for k in keys): r[1] for r in F.records(keys, sparse)}
+    nanline = mode[4] if len(mode) > 4 else None
+    if nanline:
+        dk = mode[2] if nanline == "col" else [k for k in keys if k != mode[2]][0]
+        idx = [slice(None)] * len(keys)
+        idx[keys.index(dk)] = 0
+        a.values[tuple(idx)] = np.nan
+        want = {lab: (float("nan") if lab[keys.index(dk)] == F.POOL[dk][2][0] else v) for lab, v in want.items()}
     desc = f"dims {[F.POOL[k][0] for k in keys]} to_df mode {mode}"
 
     def fail(what, **kw):
@@ -231,8 +240,10 @@ def run_todf_case(keys, mode):
     if set(seen) != set(expect):
         return fail(f"listed label combinations differ: missing {sorted(set(expect) - set(seen))[:3]}, surplus {sorted(set(seen) - set(expect))[:3]}")
     for k, v in expect.items():
-        if seen[k] != v:
+        if seen[k] != v and not (seen[k] != seen[k] and v != v):
             return fail(f"entry {k} exported as {seen[k]!r}, the array holds {v!r}")
+    if nanline:
+        return "exported (with a NaN line)", None
     # round trip
     st, back = attempt(lambda: FlodymArray.from_df(dims=F.make_dims(keys), df=df, allow_missing_values=sparse))
     if st == "raised":
@@ -316,7 +327,12 @@ def todf_modes(keys):
     if len(keys) >= 2:
         for k in keys:
             modes += [("wide", True, k), ("wide", False, k), ("wide-letter", True, k)]
-    return [m + (prov,) for m in modes for prov in ("C", "F", "view")]
+    out = [m + (prov,) for m in modes for prov in ("C", "F", "view")]
+    # a complete line of the wide table holds NaN (no data for one item): every entry is still listed
+    for m in modes:
+        if m[0].startswith("wide"):
+            out += [m + ("C", "col"), m + ("C", "row")]
+    return out
 
 
 def run_unit(u):
